@@ -169,6 +169,17 @@ class HendrixTwoProductPerishable(Problem):
         self.max_demand = self.max_useful_life * (
             max(self.max_order_quantity_a, self.max_order_quantity_b) + 2
         )
+        # The demand distributions are truncated at max_demand when the issuing
+        # probabilities are computed, so it must also cover the upper tails of
+        # both Poisson demands (direct demand for A plus substitution demand can
+        # reach the sum of the two); otherwise the probabilities of a state do
+        # not sum to one when the means are not small relative to the order limits
+        poisson_tail_cover = int(
+            scipy.stats.poisson.isf(1e-12, self.demand_poisson_mean_a)
+            + scipy.stats.poisson.isf(1e-12, self.demand_poisson_mean_b)
+            + 1
+        )
+        self.max_demand = max(self.max_demand, poisson_tail_cover)
 
         # Build lookup tables for state, action, and random event components
         # so they can be used to index into state, action, and random event vectors
